@@ -199,7 +199,8 @@ class C16(runner.Check):
 		for _ in range(r.randint(2, 4)):
 			combos.append({"seq": b.choice(["fasta", "dict"]), "sig": b.choice(["bigwig",
 				"dict"]), "insig": b.choice(["bigwig", "dict"]), "loci": [b.choice(["bed",
-				"df"]) for _ in sets], "fasta_width": b.choice([7, 50, 60, 10000])})
+				"df"]) for _ in sets], "fasta_width": b.choice([7, 50, 60, 10000]),
+				"extra_cols": b.chance(0.4), "chroms_as": b.choice(["list", "tuple"])})
 		return {"leg": "loci", "seed": seed, "chroms": chroms, "signals": signals,
 			"in_signals": in_signals, "sets": sets, "kw": kw, "combos": combos,
 			"single_set_unwrapped": len(sets) == 1 and r.chance(0.5)}
@@ -430,14 +431,26 @@ class C16(runner.Check):
 		in_signals = tracks(case["in_signals"], combo["insig"], "i")
 		import pandas
 		loci = []
+		extra = combo.get("extra_cols")
 		for i, rows in enumerate(case["sets"]):
 			if combo["loci"][i] == "bed":
 				p = os.path.join(scratch, "%s.l%d.bed" % (tag, i))
-				genome.write_bed(p, rows)
+				if extra:
+					with open(p, "w") as f:
+						for k, (c_, s_, e_) in enumerate(rows):
+							f.write("%s\t%d\t%d\tpeak%d\t%d\t+\n" % (c_, s_, e_, k, 100 + k))
+				else:
+					genome.write_bed(p, rows)
 				paths.append(p)
 				loci.append(p)
 			else:
-				loci.append(pandas.DataFrame(rows, columns=["chrom", "start", "end"]))
+				df = pandas.DataFrame(rows, columns=["chrom", "start", "end"])
+				if extra:
+					# an extra column and a non-default index (column names stay the
+					# documented chrom/start/end: the chroms filter addresses 'chrom' by name)
+					df["name"] = ["p%d" % k for k in range(len(df))]
+					df.index = [100 + 3 * k for k in range(len(df))][::-1]
+				loci.append(df)
 		if case.get("single_set_unwrapped") and len(loci) == 1:
 			loci = loci[0]
 		return loci, sequences, signals, in_signals, paths
@@ -469,8 +482,11 @@ class C16(runner.Check):
 				out.bump("backend.loci." + b)
 			try:
 				try:
+					chroms_arg = kw["chroms"]
+					if chroms_arg is not None and combo.get("chroms_as") == "tuple":
+						chroms_arg = tuple(chroms_arg)
 					res = self.tio.extract_loci(loci, sequences, signals=signals,
-						in_signals=in_signals, chroms=kw["chroms"], in_window=kw["in_window"],
+						in_signals=in_signals, chroms=chroms_arg, in_window=kw["in_window"],
 						out_window=kw["out_window"], max_jitter=kw["max_jitter"],
 						min_counts=kw["min_counts"], max_counts=kw["max_counts"],
 						target_idx=kw["target_idx"], n_loci=kw["n_loci"])
